@@ -1,0 +1,421 @@
+//! Verification shim (only compiled with `--cfg arc_swap_verif`).
+//!
+//! Drop-in wrappers around the `core` atomics used by the crate. Every access first asks a
+//! process-global [`Hook`] (if one is installed) what to do and reports the result afterwards.
+//! No policy lives here: scheduling, logging and stale-value injection belong to the external
+//! verification harness. Without a hook the wrappers are plain pass-through.
+#![allow(missing_docs, clippy::missing_safety_doc)]
+
+use core::panic::Location;
+use core::sync::atomic::{
+    AtomicPtr as CoreAtomicPtr, AtomicUsize as CoreAtomicUsize, Ordering,
+};
+
+use alloc::boxed::Box;
+use alloc::vec::Vec;
+
+/// The kind of an atomic access.
+#[derive(Copy, Clone, Debug, PartialEq, Eq)]
+pub enum Kind {
+    Load,
+    Store,
+    Swap,
+    Cas,
+    CasWeak,
+    FetchAdd,
+    FetchSub,
+}
+
+/// One atomic access, as seen by the hook.
+#[derive(Copy, Clone, Debug)]
+pub struct Access {
+    /// Address of the atomic variable.
+    pub addr: usize,
+    pub kind: Kind,
+    /// The (success) ordering requested.
+    pub ord: Ordering,
+    /// The failure ordering of a compare-exchange.
+    pub fail_ord: Option<Ordering>,
+    /// Value stored / swapped in / expected / added.
+    pub arg0: usize,
+    /// New value of a compare-exchange.
+    pub arg1: usize,
+    pub file: &'static str,
+    pub line: u32,
+}
+
+/// What the hook wants the access to do.
+#[derive(Copy, Clone, Debug, PartialEq, Eq)]
+pub enum Decision {
+    /// Perform the access.
+    Proceed,
+    /// `compare_exchange_weak` only: fail without looking (returns the current value).
+    FailSpuriously,
+    /// Loads and compare-exchanges only: do not touch memory, behave as if this (stale) value
+    /// has been read (a compare-exchange fails with it).
+    Stale(usize),
+}
+
+pub trait Hook: Sync {
+    fn before(&self, access: &Access) -> Decision;
+    /// `old` is the value read (or previous value), `ok` whether a compare-exchange succeeded
+    /// (always true for other kinds).
+    fn after(&self, access: &Access, old: usize, ok: bool);
+}
+
+static HOOK: CoreAtomicPtr<&'static dyn Hook> = CoreAtomicPtr::new(core::ptr::null_mut());
+
+/// Install (or, with `None`, remove) the global hook.
+pub fn set_hook(hook: Option<&'static dyn Hook>) {
+    let p = match hook {
+        Some(h) => Box::into_raw(Box::new(h)),
+        None => core::ptr::null_mut(),
+    };
+    // The previous box is leaked on purpose (another thread may still be using it).
+    HOOK.store(p, Ordering::SeqCst);
+}
+
+#[inline]
+fn hook() -> Option<&'static dyn Hook> {
+    let p = HOOK.load(Ordering::Relaxed);
+    if p.is_null() {
+        None
+    } else {
+        Some(unsafe { *p })
+    }
+}
+
+macro_rules! access {
+    ($self: expr, $kind: expr, $ord: expr, $fail: expr, $a0: expr, $a1: expr) => {{
+        let loc = Location::caller();
+        Access {
+            addr: &$self.0 as *const _ as usize,
+            kind: $kind,
+            ord: $ord,
+            fail_ord: $fail,
+            arg0: $a0,
+            arg1: $a1,
+            file: loc.file(),
+            line: loc.line(),
+        }
+    }};
+}
+
+/// Shimmed `AtomicUsize`.
+#[derive(Debug, Default)]
+#[repr(transparent)]
+pub struct AtomicUsize(CoreAtomicUsize);
+
+impl AtomicUsize {
+    pub const fn new(v: usize) -> Self {
+        AtomicUsize(CoreAtomicUsize::new(v))
+    }
+
+    pub fn get_mut(&mut self) -> &mut usize {
+        self.0.get_mut()
+    }
+
+    /// Read the value without going through the hook (for accessors only).
+    pub fn raw(&self) -> usize {
+        self.0.load(Ordering::Relaxed)
+    }
+
+    #[track_caller]
+    pub fn load(&self, ord: Ordering) -> usize {
+        match hook() {
+            None => self.0.load(ord),
+            Some(h) => {
+                let a = access!(self, Kind::Load, ord, None, 0, 0);
+                let v = match h.before(&a) {
+                    Decision::Stale(v) => v,
+                    _ => self.0.load(ord),
+                };
+                h.after(&a, v, true);
+                v
+            }
+        }
+    }
+
+    #[track_caller]
+    pub fn store(&self, v: usize, ord: Ordering) {
+        match hook() {
+            None => self.0.store(v, ord),
+            Some(h) => {
+                let a = access!(self, Kind::Store, ord, None, v, 0);
+                h.before(&a);
+                // Swap instead of store so the hook can see what has been overwritten; the
+                // orderings of a swap are a superset of those of a store.
+                let old = self.0.swap(v, ord_rmw_of_store(ord));
+                h.after(&a, old, true);
+            }
+        }
+    }
+
+    #[track_caller]
+    pub fn swap(&self, v: usize, ord: Ordering) -> usize {
+        match hook() {
+            None => self.0.swap(v, ord),
+            Some(h) => {
+                let a = access!(self, Kind::Swap, ord, None, v, 0);
+                h.before(&a);
+                let old = self.0.swap(v, ord);
+                h.after(&a, old, true);
+                old
+            }
+        }
+    }
+
+    #[track_caller]
+    pub fn compare_exchange(
+        &self,
+        current: usize,
+        new: usize,
+        success: Ordering,
+        failure: Ordering,
+    ) -> Result<usize, usize> {
+        match hook() {
+            None => self.0.compare_exchange(current, new, success, failure),
+            Some(h) => {
+                let a = access!(self, Kind::Cas, success, Some(failure), current, new);
+                let r = match h.before(&a) {
+                    Decision::Stale(v) => Err(v),
+                    _ => self.0.compare_exchange(current, new, success, failure),
+                };
+                match r {
+                    Ok(v) => h.after(&a, v, true),
+                    Err(v) => h.after(&a, v, false),
+                }
+                r
+            }
+        }
+    }
+
+    #[track_caller]
+    pub fn compare_exchange_weak(
+        &self,
+        current: usize,
+        new: usize,
+        success: Ordering,
+        failure: Ordering,
+    ) -> Result<usize, usize> {
+        match hook() {
+            None => self.0.compare_exchange_weak(current, new, success, failure),
+            Some(h) => {
+                let a = access!(self, Kind::CasWeak, success, Some(failure), current, new);
+                let r = match h.before(&a) {
+                    Decision::Stale(v) => Err(v),
+                    Decision::FailSpuriously => Err(self.0.load(failure)),
+                    // The strong version: spurious failures happen only when the hook says so.
+                    Decision::Proceed => self.0.compare_exchange(current, new, success, failure),
+                };
+                match r {
+                    Ok(v) => h.after(&a, v, true),
+                    Err(v) => h.after(&a, v, false),
+                }
+                r
+            }
+        }
+    }
+
+    #[track_caller]
+    pub fn fetch_add(&self, v: usize, ord: Ordering) -> usize {
+        match hook() {
+            None => self.0.fetch_add(v, ord),
+            Some(h) => {
+                let a = access!(self, Kind::FetchAdd, ord, None, v, 0);
+                h.before(&a);
+                let old = self.0.fetch_add(v, ord);
+                h.after(&a, old, true);
+                old
+            }
+        }
+    }
+
+    #[track_caller]
+    pub fn fetch_sub(&self, v: usize, ord: Ordering) -> usize {
+        match hook() {
+            None => self.0.fetch_sub(v, ord),
+            Some(h) => {
+                let a = access!(self, Kind::FetchSub, ord, None, v, 0);
+                h.before(&a);
+                let old = self.0.fetch_sub(v, ord);
+                h.after(&a, old, true);
+                old
+            }
+        }
+    }
+}
+
+fn ord_rmw_of_store(ord: Ordering) -> Ordering {
+    match ord {
+        Ordering::Relaxed => Ordering::Relaxed,
+        Ordering::Release => Ordering::Release,
+        _ => Ordering::SeqCst,
+    }
+}
+
+/// Shimmed `AtomicPtr`.
+#[derive(Debug)]
+#[repr(transparent)]
+pub struct AtomicPtr<T>(CoreAtomicPtr<T>);
+
+impl<T> Default for AtomicPtr<T> {
+    fn default() -> Self {
+        Self::new(core::ptr::null_mut())
+    }
+}
+
+impl<T> AtomicPtr<T> {
+    pub const fn new(v: *mut T) -> Self {
+        AtomicPtr(CoreAtomicPtr::new(v))
+    }
+
+    pub fn get_mut(&mut self) -> &mut *mut T {
+        self.0.get_mut()
+    }
+
+    /// Read the value without going through the hook (for accessors only).
+    pub fn raw(&self) -> *mut T {
+        self.0.load(Ordering::Relaxed)
+    }
+
+    /// Overwrite the value without going through the hook (for accessors only).
+    pub fn raw_store(&self, v: *mut T) {
+        self.0.store(v, Ordering::SeqCst)
+    }
+
+    #[track_caller]
+    pub fn load(&self, ord: Ordering) -> *mut T {
+        match hook() {
+            None => self.0.load(ord),
+            Some(h) => {
+                let a = access!(self, Kind::Load, ord, None, 0, 0);
+                let v = match h.before(&a) {
+                    Decision::Stale(v) => v as *mut T,
+                    _ => self.0.load(ord),
+                };
+                h.after(&a, v as usize, true);
+                v
+            }
+        }
+    }
+
+    #[track_caller]
+    pub fn store(&self, v: *mut T, ord: Ordering) {
+        match hook() {
+            None => self.0.store(v, ord),
+            Some(h) => {
+                let a = access!(self, Kind::Store, ord, None, v as usize, 0);
+                h.before(&a);
+                let old = self.0.swap(v, ord_rmw_of_store(ord));
+                h.after(&a, old as usize, true);
+            }
+        }
+    }
+
+    #[track_caller]
+    pub fn swap(&self, v: *mut T, ord: Ordering) -> *mut T {
+        match hook() {
+            None => self.0.swap(v, ord),
+            Some(h) => {
+                let a = access!(self, Kind::Swap, ord, None, v as usize, 0);
+                h.before(&a);
+                let old = self.0.swap(v, ord);
+                h.after(&a, old as usize, true);
+                old
+            }
+        }
+    }
+
+    #[track_caller]
+    pub fn compare_exchange(
+        &self,
+        current: *mut T,
+        new: *mut T,
+        success: Ordering,
+        failure: Ordering,
+    ) -> Result<*mut T, *mut T> {
+        match hook() {
+            None => self.0.compare_exchange(current, new, success, failure),
+            Some(h) => {
+                let a = access!(
+                    self,
+                    Kind::Cas,
+                    success,
+                    Some(failure),
+                    current as usize,
+                    new as usize
+                );
+                let r = match h.before(&a) {
+                    Decision::Stale(v) => Err(v as *mut T),
+                    _ => self.0.compare_exchange(current, new, success, failure),
+                };
+                match r {
+                    Ok(v) => h.after(&a, v as usize, true),
+                    Err(v) => h.after(&a, v as usize, false),
+                }
+                r
+            }
+        }
+    }
+
+    #[track_caller]
+    pub fn compare_exchange_weak(
+        &self,
+        current: *mut T,
+        new: *mut T,
+        success: Ordering,
+        failure: Ordering,
+    ) -> Result<*mut T, *mut T> {
+        match hook() {
+            None => self.0.compare_exchange_weak(current, new, success, failure),
+            Some(h) => {
+                let a = access!(
+                    self,
+                    Kind::CasWeak,
+                    success,
+                    Some(failure),
+                    current as usize,
+                    new as usize
+                );
+                let r = match h.before(&a) {
+                    Decision::Stale(v) => Err(v as *mut T),
+                    Decision::FailSpuriously => Err(self.0.load(failure)),
+                    Decision::Proceed => self.0.compare_exchange(current, new, success, failure),
+                };
+                match r {
+                    Ok(v) => h.after(&a, v as usize, true),
+                    Err(v) => h.after(&a, v as usize, false),
+                }
+                r
+            }
+        }
+    }
+}
+
+/// Addresses and current contents of one debt node (see `debt::list::Node`).
+#[derive(Clone, Debug, Default)]
+pub struct NodeInfo {
+    pub addr: usize,
+    /// Addresses of the fast slots.
+    pub fast: Vec<usize>,
+    pub fast_vals: Vec<usize>,
+    pub control: usize,
+    pub control_val: usize,
+    pub slot: usize,
+    pub slot_val: usize,
+    pub active_addr: usize,
+    pub active_addr_val: usize,
+    pub space_offer: usize,
+    pub space_offer_val: usize,
+    pub handover: usize,
+    pub handover_val: usize,
+    pub in_use: usize,
+    pub in_use_val: usize,
+    pub active_writers: usize,
+    pub active_writers_val: usize,
+}
+
+pub use crate::debt::verif::{
+    generation, list_head_addr, nodes, reset_list, set_generation, thread_node, DEBT_NONE,
+};
